@@ -11,6 +11,8 @@ pub(crate) use facade::*;
 mod linux;
 #[cfg(all(target_os = "linux", not(miri)))]
 pub(crate) use linux::*;
+#[cfg(all(folo_verif, target_os = "linux", not(miri)))]
+pub use linux::verif as linux_verif;
 
 #[cfg(all(windows, not(miri)))]
 mod windows;
